@@ -205,6 +205,9 @@ def check(ctx, F):
     check_accessors(ctx, F, "C04.forward")        # the guard walk reads the requested prongs / bits through these accessors
     E = Effects(F)
     check_round(ctx, F, extras=True, E=E)
+    check_rounds_once(ctx, F)
+    from . import C09
+    C09.check_snapshot(ctx, F, "C04.round")
     check_rest(ctx, F, E)
 
 
@@ -275,6 +278,25 @@ def check_bounded(ctx, F, fid, b, site):
         ctx.violation("C04.bounded", site, "%s (%s)" % (site, F.floc(fid)),
                       "round loop is not `for (s = 0; s < SUBSTITUTION_LIMIT && ...; ++s)` with s untouched in the body "
                       "(bound test: s %s SUBSTITUTION_LIMIT, init 0: %s, ++s: %s, s written in body: %s)" % (found, ok_init, ok_inc, written), {})
+
+
+def check_rounds_once(ctx, F):
+    """the bound on guard rounds holds per *step* only if the round loop is entered once per step: every caller of processTransitions calls it
+    at most once on every path (a `while` around it would start a fresh batch of SUBSTITUTION_LIMIT rounds), and it is not recursive"""
+    targets = {fid for fid, b in insts(F, "R_", {"processTransitions"})}
+    for fid, b in F.bodies.items():
+        if not b["inst"] or not (set(b.get("calls", ())) & targets):
+            continue
+        site = "%s::%s" % (b.get("cls"), b["name"])
+        most = 0
+        for p in sym_paths(F, fid, 2):
+            ctx.paths += 1
+            most = max(most, sum(1 for ev in p if ev[0] == "call" and ev[2] in targets))
+        ctx.instance("C04.bounded", site + "/once", {"function": site, "loc": F.floc(fid), "calls_on_a_path": most})
+        if most > 1 or fid in targets:
+            ctx.violation("C04.bounded", site + "/once", "%s (%s)" % (site, F.floc(fid)),
+                          "processTransitions() can run %s on one path through %s: every run allows another SUBSTITUTION_LIMIT rounds of guards, "
+                          "so the rounds of a step are no longer bounded" % ("recursively" if fid in targets else "%d times" % most, site), {})
 
 
 def check_backup_covers(ctx, F, E, fid, b, site):
